@@ -25,7 +25,7 @@ RULE = ("(a) mutation campaign, one process per mutant, ASan+UBSan build: corpus
         "under its final name is a complete valid content file (byte-identical to the old or new version where the new version is "
         "deterministic); plus the ordering spec per copy on the event log: create .tmp O_EXCL < writes < fsync < close < re-read to "
         "EOF < rename; after success all copies are byte-identical. (c) faults inside the save (one write silently corrupted, ENOSPC on a write, "
-        "EIO on fsync, EIO on the re-read) on each copy in turn: the command must fail and every copy must stay a complete valid version. Non-trivial: mutant bytes differ from the original / the kill "
+        "EIO on fsync, EIO on the re-read) on each copy in turn: the command must fail and every copy must stay a complete valid version. (a') valid content files crafted so that the stored CRC ends with ff / 00 / 01 (ffff / 0000 thorough), cut by exactly those bytes, all copies, every command. Non-trivial: mutant bytes differ from the original / the kill "
         "rule fired (INJ record).")
 
 VARINTS = [0, 1 << 7, 1 << 14, 1 << 21, 1 << 28, (1 << 32) - 1, (1 << 32), (1 << 35) + 5]
